@@ -9,19 +9,20 @@ structure Ext (s s' : St) : Prop where
   nb : s'.nb = s.nb
   mobs : ∃ ext, s'.mobs = s.mobs ++ ext
   tree : ∀ b, inTree s b = true → inTree s' b = true
+  lvl : ∀ b l, s.level b = some l → s'.level b = some l
   master : s'.master = s.master
   slaves : s'.slaves = s.slaves
   cons : s'.cons = s.cons
   jloop : s'.jloop = s.jloop
 
 theorem Ext.refl (s : St) : Ext s s :=
-  ⟨rfl, rfl, ⟨[], by simp⟩, fun _ h => h, rfl, rfl, rfl, rfl⟩
+  ⟨rfl, rfl, ⟨[], by simp⟩, fun _ h => h, fun _ _ h => h, rfl, rfl, rfl, rfl⟩
 
 theorem Ext.trans {a b c : St} (h1 : Ext a b) (h2 : Ext b c) : Ext a c := by
   obtain ⟨e1, he1⟩ := h1.mobs
   obtain ⟨e2, he2⟩ := h2.mobs
   exact ⟨h2.joints.trans h1.joints, h2.nb.trans h1.nb, ⟨e1 ++ e2, by rw [he2, he1, List.append_assoc]⟩,
-    fun b h => h2.tree b (h1.tree b h), h2.master.trans h1.master, h2.slaves.trans h1.slaves,
+    fun b h => h2.tree b (h1.tree b h), fun b l h => h2.lvl b l (h1.lvl b l h), h2.master.trans h1.master, h2.slaves.trans h1.slaves,
     h2.cons.trans h1.cons, h2.jloop.trans h1.jloop⟩
 
 theorem Ext.length_le {s s' : St} (h : Ext s s') : s.mobs.length ≤ s'.mobs.length := by
@@ -30,12 +31,17 @@ theorem Ext.length_le {s s' : St} (h : Ext s s') : s.mobs.length ≤ s'.mobs.len
 theorem addMob_ext {s : St} {j : Nat} (h : Pre s j) : Ext s (addMob s j) := by
   obtain ⟨m, l, hinb, houtb, hlev, hmj, hends, heq⟩ := addMob_eq h
   rw [heq]
-  refine ⟨rfl, rfl, ⟨[m], rfl⟩, ?_, rfl, rfl, rfl, rfl⟩
-  intro b hb
-  show (upd s.level m.outb (some m.level) b).isSome = true
-  by_cases hbo : b = m.outb
-  · subst hbo; simp
-  · rw [upd_ne _ _ hbo]; exact hb
+  refine ⟨rfl, rfl, ⟨[m], rfl⟩, ?_, ?_, rfl, rfl, rfl, rfl⟩
+  · intro b hb
+    show (upd s.level m.outb (some m.level) b).isSome = true
+    by_cases hbo : b = m.outb
+    · subst hbo; simp
+    · rw [upd_ne _ _ hbo]; exact hb
+  · intro b l' hb
+    show upd s.level m.outb (some m.level) b = some l'
+    by_cases hbo : b = m.outb
+    · subst hbo; rw [houtb] at hb; cases hb
+    · rw [upd_ne _ _ hbo]; exact hb
 
 /-! ### the two searches -/
 
